@@ -68,7 +68,9 @@ func awaitWorkflowStatusByForeignID[Type any, Status StatusType](
 			filterByForeignID(foreignID),
 			filterByRunID(runID),
 		)
-		if shouldFilter {
+		// The run state change topic carries every pause, cancellation and completion of the run: only an event
+		// written at the awaited status releases the caller.
+		if shouldFilter || e.Type != int(status) {
 			err = ack()
 			if err != nil {
 				return nil, err
